@@ -209,7 +209,8 @@ DEVIATIONS = [("fd_null", "C04/boxed-function-definition", lambda m: model_has_f
               ("fd_dynamic", "C04/boxed-function-definition", lambda m: model_has_fd(m)),
               ("bkm_service_value", "C04/bkm-requires-service-bound-to-value",
                lambda m: any(idx_kind(m, r) == "service" for b in m["bkms"] for r in b["reqK"])),
-              ("ctx_flat", "C04/nested-context-entries-leak", lambda m: True)]
+              ("ctx_flat", "C04/nested-context-entries-leak", lambda m: True),
+              ("inv_omitted", "C04/omitted-binding-resolves-in-the-invoking-scope", lambda m: True)]
 
 
 def diagnose(ctx, case, name, inp, got, want, kind, form, labels):
@@ -220,7 +221,7 @@ def diagnose(ctx, case, name, inp, got, want, kind, form, labels):
     rc = ref_ctx(inp["ctx"])
     msg = "%s %r with input %r\n  expected %s\n  actual   %s\n%s" % (kind, name, inp["ctx"], val.show(want), val.show(got), case["xml"])
     undetermined = False
-    flags = [(flag, sig) for flag, sig, applicable in DEVIATIONS if applicable(m)] + [("null_left_eq", None)]
+    flags = [(flag, sig) for flag, sig, applicable in DEVIATIONS if applicable(m)] + [("null_left_eq", None), ("inv_whole_null", None)]
     for r in range(1, len(flags) + 1):
         for combo in itertools.combinations(flags, r):
             dev = tuple(f for f, _ in combo)
@@ -235,7 +236,7 @@ def diagnose(ctx, case, name, inp, got, want, kind, form, labels):
             if val.same(got, v):
                 sigs = sorted({sig.split("/")[1] for _, sig in combo if sig})
                 if not sigs:
-                    labels.append("feel-known:null-left-equality(C01/C09)")
+                    labels.append("accepted-reading:" + "+".join(dev))      # null = x is null (C01/C09); unbound parameter -> null invocation
                     return None
                 for x in sigs:
                     labels.append("known:" + x)
